@@ -308,9 +308,9 @@ var Engine = &core.Engine{
 	},
 	Cases: func(tier string) int {
 		if tier == "thorough" {
-			return 16 * 400
+			return 16 * 600
 		}
-		return 16 * 12
+		return 16 * 40
 	},
 	Batch:         func(string) int { return 8 },
 	Run:           run,
